@@ -309,8 +309,17 @@ def run_one(case):
                 raise Boom('support')
             await asyncio.sleep(1)      # until cancelled (or the horizon of this scenario)
 
+        async def support2():
+            # a second supporting coroutine whose own clean-up takes a few loop iterations after the
+            # cancellation: run() must wait for it, too
+            try:
+                await asyncio.sleep(1000)
+            finally:
+                for _ in range(3):
+                    await asyncio.sleep(0)
+
         try:
-            await edzed.run(support(), catch_sigterm=True)
+            await edzed.run(support(), support2(), catch_sigterm=True)
         except BaseException as err:      # noqa
             obs['run_exc'] = type(err).__name__ + ': ' + str(err)[:100]
         me = asyncio.current_task()
